@@ -106,7 +106,8 @@ def judge(op, expected, data, o):
 
 
 def op_task(t):
-    op, maxlen = t
+    op, maxlen = t[:2]
+    tls = len(t) > 2 and t[2]  # the same calls on a session that went through STARTTLS: the command must be on the TLS channel
     viols = []
     n = 0
     distinct = set()
@@ -114,21 +115,28 @@ def op_task(t):
     srv = refms.RefServer(store={"a": b"keep;\r\n"}, active="a", version=True)
     s = wire.open_session(srv)
     vals = list(values(maxlen)) if op not in ("listscripts", "capability") else ["a"]
+    if tls:
+        vals = ["a"] + SPECIAL[:12] if op not in ("listscripts", "capability") else ["a"]
     for val in vals:
         for args, expected in calls_for(op, val):
             # fresh session per call: a hostile value may desynchronise the stream
-            srv = refms.RefServer(store={"a": b"keep;\r\n"}, active="a", version=True)
-            s = wire.open_session(srv)
+            srv = refms.RefServer(store={"a": b"keep;\r\n"}, active="a", version=True, starttls=tls)
+            s = wire.open_session(srv, starttls=tls)
             m = wire.mark(s)
+            plain_before = len(s.plain.written)
             o = s.call(op, *args)
             data = wire.written_since(s, m)
             n += 1
             bad = judge(op, expected, data, o)
+            if bad is None and tls and len(s.plain.written) != plain_before:
+                bad = ("cleartext-after-starttls", "after STARTTLS %d octets were written to the plain socket: %r" % (len(s.plain.written) - plain_before, s.plain.written[plain_before:][:60]))
+            if bad is None and srv.violations:
+                bad = ("protocol-violation", srv.violations[0])
             distinct.add((classify_value(val), bad[0] if bad else None, o.kind))
             if bad:
-                viols.append({"property": "C08", "engine": "wire", "signature": ["C08", op, classify_value(val), bad[0]],
+                viols.append({"property": "C08", "engine": "wire", "signature": ["C08", op + ("/tls" if tls else ""), classify_value(val), bad[0]],
                               "what": "%s%r wrote %r: %s" % (op, args if len(repr(args)) < 80 else "(long)", data[:80], bad[1]),
-                              "case": {"op": op, "args": [a if isinstance(a, int) else a for a in args]},
+                              "case": {"op": op, "tls": bool(tls), "args": [a if isinstance(a, int) else a for a in args]},
                               "witness": "%s%r" % (op, args if len(repr(args)) < 120 else "(1025-char name)"), "observed": repr(data[:100])})
             elif sample is None and '"' in val and o.kind == "ret":
                 sample = {"call": "%s%r" % (op, args), "wire": data.decode("utf-8", "replace")}
@@ -266,7 +274,7 @@ def sweep_task(t):
 def run(tier, seed):
     maxlen = 3 if tier == "quick" else 4
     ops = ["havespace", "getscript", "putscript", "checkscript", "deletescript", "renamescript", "setactive", "listscripts", "capability"]
-    res = pool.run_tasks("checks.c08:op_task", [(op, maxlen) for op in ops])
+    res = pool.run_tasks("checks.c08:op_task", [(op, maxlen) for op in ops] + [(op, maxlen, True) for op in ops])
     top = 9000 if tier == "quick" else 70000
     sw = []
     for op in ("putscript", "checkscript", "deletescript", "deletescript-escaped"):
@@ -304,12 +312,16 @@ def replay(payload):
         return [v for v in r["violations"] if v["signature"][:3] == payload["signature"][:3]]
     args = tuple(c["args"])
     expected = list(args)
-    srv = refms.RefServer(store={"a": b"keep;\r\n"}, active="a", version=True)
-    s = wire.open_session(srv)
+    tls = bool(c.get("tls"))
+    srv = refms.RefServer(store={"a": b"keep;\r\n"}, active="a", version=True, starttls=tls)
+    s = wire.open_session(srv, starttls=tls)
     m = wire.mark(s)
+    plain_before = len(s.plain.written)
     o = s.call(op, *args)
     data = wire.written_since(s, m)
     bad = judge(op, expected, data, o)
+    if bad is None and tls and len(s.plain.written) != plain_before:
+        bad = ("cleartext-after-starttls", "octets written to the plain socket after STARTTLS")
     if bad:
         sig = list(payload["signature"])
         sig[3] = bad[0]
